@@ -15,7 +15,7 @@ import pathspec
 from .__version__ import ascmhl_folder_name
 
 
-def post_order_lexicographic(top: str, ignore_pathspec: pathspec.PathSpec = None):
+def post_order_lexicographic(top: str, ignore_pathspec: pathspec.PathSpec = None, root: str = None):
     """
     iterates a file system in the order necessary to generate composite tree hashes, bypassing ignored paths.
 
@@ -23,6 +23,11 @@ def post_order_lexicographic(top: str, ignore_pathspec: pathspec.PathSpec = None
     :param ignore_pathspec: the pathspec of ignore patterns to match file exclusions against
     :return: yields results in folder chunks, in the order necessary for composite directory hashes
     """
+    # patterns are matched against paths relative to the root of the traversal, the location of the root
+    # (names of parent folders) must never influence what is ignored
+    if root is None:
+        root = top
+
     # create a sorted list of our immediate children
     names = os.listdir(top)
     names.sort()
@@ -32,7 +37,7 @@ def post_order_lexicographic(top: str, ignore_pathspec: pathspec.PathSpec = None
     for name in names:
         file_path = os.path.join(top, name)
         # directory patterns like "sub/" only match paths of directories, given with a trailing separator
-        match_path = file_path + os.sep if isdir(file_path) else file_path
+        match_path = os.path.relpath(file_path, root) + (os.sep if isdir(file_path) else "")
         if ignore_pathspec and ignore_pathspec.match_file(match_path):
             if os.path.basename(os.path.normpath(file_path)) != ascmhl_folder_name:
                 logger.verbose(f"ignoring filepath {file_path}")
@@ -45,7 +50,7 @@ def post_order_lexicographic(top: str, ignore_pathspec: pathspec.PathSpec = None
         if is_dir:
             path = join(top, name)
             if not os.path.islink(path):
-                for x in post_order_lexicographic(path, ignore_pathspec):
+                for x in post_order_lexicographic(path, ignore_pathspec, root):
                     yield x
 
     # now that all children have been traversed, yield the top (current) directory and all of it's sorted children.
